@@ -37,6 +37,7 @@ class Ob:
     custom: Optional[Callable[[dict, str], dict]] = None  # non-symx obligations (po encoding, fp)
     custom_replay: Optional[Callable[[dict, dict], Any]] = None
     min_paths: int = 1
+    fresh_only: bool = False  # non-linear real arithmetic: skip the incremental core, use nlsat
     allow_unreached: tuple = ()
 
 
@@ -81,6 +82,7 @@ def _job(args):
                 max_paths=ob.max_paths,
                 expected_exc=ob.expected_exc,
                 deadline_s=ob.deadline_s,
+                fresh_only=ob.fresh_only,
             )
             r = res.as_dict()
         r.update(ob=ob_name, param=param, pidx=pidx, job_wall_s=time.time() - t0, error=None)
